@@ -707,6 +707,181 @@ closure_model(r'^(std::)?(result::)?Result::<.*>::and_then(::<.*>)?$', 2,
               lambda ex, st, v, i, f, dty: ('call', [payload(ex, st, v, 0, 0)], lambda s, r: r) if i == 0 else ('val', err(payload(ex, st, v, 1, 0))))
 
 
+def _tmp_ref(ex, st, v):
+    st.nfid += 1
+    cell = (st.nfid, 'tmp')
+    st.cells[cell] = v
+    return Ptr(cell, ())
+
+
+def _bool_to_opt(ex, st, keep, v):
+    """Some(v) if keep else None, for a Bool-valued Sc `keep`"""
+    return sym_enum(z3.If(keep.t, I(1), I(0)), {1: [v], 0: []}, 'Option')
+
+
+closure_model(r'^(std::)?(option::)?Option::<.*>::filter(::<.*>)?$', 2,
+              lambda ex, st, v, i, f, dty: (lambda pv: ('call', [_tmp_ref(ex, st, pv)], lambda s, r: _bool_to_opt(ex, s, r, pv)))(payload(ex, st, v, 1, 0, inner_ty(dty))) if i == 1 else ('val', none()))
+closure_model(r'^(std::)?(option::)?Option::<.*>::(is_some_and)(::<.*>)?$', 2,
+              lambda ex, st, v, i, f, dty: ('call', [payload(ex, st, v, 1, 0)], lambda s, r: r) if i == 1 else ('val', Sc(z3.BoolVal(False), 'bool')))
+closure_model(r'^(std::)?(option::)?Option::<.*>::(is_none_or)(::<.*>)?$', 2,
+              lambda ex, st, v, i, f, dty: ('call', [payload(ex, st, v, 1, 0)], lambda s, r: r) if i == 1 else ('val', Sc(z3.BoolVal(True), 'bool')))
+closure_model(r'^(std::)?(option::)?Option::<.*>::or_else(::<.*>)?$', 2,
+              lambda ex, st, v, i, f, dty: ('val', some(payload(ex, st, v, 1, 0))) if i == 1 else ('call', [], lambda s, r: r))
+closure_model(r'^(std::)?(result::)?Result::<.*>::unwrap_or_else(::<.*>)?$', 2,
+              lambda ex, st, v, i, f, dty: ('val', payload(ex, st, v, 0, 0)) if i == 0 else ('call', [payload(ex, st, v, 1, 0)], lambda s, r: r))
+closure_model(r'^(std::)?(result::)?Result::<.*>::or_else(::<.*>)?$', 2,
+              lambda ex, st, v, i, f, dty: ('val', ok(payload(ex, st, v, 0, 0))) if i == 0 else ('call', [payload(ex, st, v, 1, 0)], lambda s, r: r))
+closure_model(r'^(std::)?(result::)?Result::<.*>::(is_ok_and)(::<.*>)?$', 2,
+              lambda ex, st, v, i, f, dty: ('call', [payload(ex, st, v, 0, 0)], lambda s, r: r) if i == 0 else ('val', Sc(z3.BoolVal(False), 'bool')))
+closure_model(r'^(std::)?(result::)?Result::<.*>::(is_err_and)(::<.*>)?$', 2,
+              lambda ex, st, v, i, f, dty: ('call', [payload(ex, st, v, 1, 0)], lambda s, r: r) if i == 1 else ('val', Sc(z3.BoolVal(False), 'bool')))
+
+
+def _two_closure_model(name_rx, some_idx):
+    """map_or(default, f) / map_or_else(dflt_fn, f): the closure is the third argument"""
+    @pattern(name_rx)
+    def m(ex, st, args, dty, canon):
+        v, dflt, f = args[0], args[1], args[2]
+        lazy = canon[3].endswith('_else')
+        cases = enum_cases(ex, st, v, 2)
+
+        def run(s, i):
+            caller = s.frames[-1]
+            term = caller.fn.blocks[caller.bb].term
+            dcell, dpath, _ = ex.resolve(s, caller, term.place)
+
+            def cont(ex2, s2, value):
+                ex2.store(s2, dcell, dpath, value)
+                c2 = s2.frames[-1]
+                c2.bb, c2.idx = term.target, 0
+                return NOTHING
+            if i == some_idx:
+                r = call_fnlike(ex, s, f, [payload(ex, s, v, some_idx, 0)], cont, None)
+            elif lazy:
+                r = call_fnlike(ex, s, dflt, [] if some_idx == 1 else [payload(ex, s, v, 1, 0)], cont, None)
+            else:
+                return dflt
+            return NOTHING if r is PUSHED else r
+        if len(cases) == 1 and cases[0][0] is None:
+            return run(st, cases[0][1])
+        raise Fork([(c, (lambda i: (lambda s: run(s, i)))(i)) for c, i in cases])
+    return m
+
+
+_two_closure_model(r'^(std::)?(option::)?Option::<.*>::(map_or|map_or_else)(::<.*>)?$', 1)
+_two_closure_model(r'^(std::)?(result::)?Result::<.*>::(map_or|map_or_else)(::<.*>)?$', 0)
+
+
+@pattern(r'^(std::)?(option::)?Option::<(std::)?(result::)?Result<.*>>::transpose$')
+def m_option_transpose(ex, st, args, dty, canon):
+    """Option<Result<T,E>> -> Result<Option<T>,E>"""
+    v = args[0]
+    d = ex.discr_of(st, v).t
+    inner = payload(ex, st, v, 1, 0)
+    di = ex.discr_of(st, inner).t
+    okv = sym_enum(d, {1: [payload(ex, st, inner, 0, 0)], 0: []}, 'Option')
+    return sym_enum(z3.If(z3.And(d == 1, di == 1), I(1), I(0)), {0: [okv], 1: [payload(ex, st, inner, 1, 0)]}, 'Result')
+
+
+@pattern(r'^(std::)?(result::)?Result::<(std::)?(option::)?Option<.*>, .*>::transpose$')
+def m_result_transpose(ex, st, args, dty, canon):
+    """Result<Option<T>,E> -> Option<Result<T,E>>"""
+    v = args[0]
+    d = ex.discr_of(st, v).t
+    inner = payload(ex, st, v, 0, 0)
+    di = ex.discr_of(st, inner).t
+    r = sym_enum(d, {0: [payload(ex, st, inner, 1, 0)], 1: [payload(ex, st, v, 1, 0)]}, 'Result')
+    return sym_enum(z3.If(z3.And(d == 0, di == 0), I(0), I(1)), {1: [r], 0: []}, 'Option')
+
+
+@pattern(r'^(std::)?(option::)?Option::<.*>::(or)$')
+def m_option_or(ex, st, args, dty, canon):
+    v = args[0]
+    cases = enum_cases(ex, st, v, 2)
+
+    def f(s, i):
+        return v if i == 1 else args[1]
+    fork_on(cases, f)
+    return f(st, cases[0][1])
+
+
+@pattern(r'^(std::)?(option::)?Option::<.*>::(and)(::<.*>)?$')
+def m_option_and(ex, st, args, dty, canon):
+    v = args[0]
+    cases = enum_cases(ex, st, v, 2)
+
+    def f(s, i):
+        return args[1] if i == 1 else none()
+    fork_on(cases, f)
+    return f(st, cases[0][1])
+
+
+@pattern(r'^(std::)?(option::)?Option::<.*>::(zip)(::<.*>)?$')
+def m_option_zip(ex, st, args, dty, canon):
+    a, b = args[0], args[1]
+    da, db = ex.discr_of(st, a).t, ex.discr_of(st, b).t
+    tup = Tree({0: payload(ex, st, a, 1, 0), 1: payload(ex, st, b, 1, 0)}, None, None)
+    return sym_enum(z3.If(z3.And(da == 1, db == 1), I(1), I(0)), {1: [tup], 0: []}, 'Option')
+
+
+@pattern(r'^(std::)?(option::)?Option::<(std::)?(option::)?Option<.*>>::flatten$')
+def m_option_flatten(ex, st, args, dty, canon):
+    v = args[0]
+    d = ex.discr_of(st, v).t
+    inner = payload(ex, st, v, 1, 0)
+    di = ex.discr_of(st, inner).t
+    return sym_enum(z3.If(z3.And(d == 1, di == 1), I(1), I(0)), {1: [payload(ex, st, inner, 1, 0)], 0: []}, 'Option')
+
+
+@pattern(r'^(std::)?(option::)?Option::<&(mut )?.*>::(copied|cloned)$')
+def m_option_copied(ex, st, args, dty, canon):
+    v = args[0]
+    d = ex.discr_of(st, v).t
+    cases = enum_cases(ex, st, v, 2)
+
+    def f(s, i):
+        if i == 1:
+            return some(deref(ex, s, payload(ex, s, v, 1, 0)))
+        return none()
+    fork_on(cases, f)
+    return f(st, cases[0][1])
+
+
+@pattern(r'^(std::)?(option::)?Option::<(i|u)(8|16|32|64|128|size)>::unwrap_or_default$')
+def m_option_unwrap_or_default(ex, st, args, dty, canon):
+    v = args[0]
+    d = ex.discr_of(st, v).t
+    pv = payload(ex, st, v, 1, 0, dty)
+    return Sc(z3.If(d == 1, pv.t, I(0)), pv.ty)
+
+
+@pattern(r'^(std::)?(result::)?Result::<.*>::unwrap_or$')
+def m_result_unwrap_or(ex, st, args, dty, canon):
+    v = args[0]
+    pv = payload(ex, st, v, 0, 0, dty)
+    if isinstance(pv, Sc) and isinstance(args[1], Sc):
+        d = ex.discr_of(st, v).t
+        return Sc(z3.If(d == 0, pv.t, args[1].t), pv.ty)
+    cases = enum_cases(ex, st, v, 2)
+
+    def f(s, i):
+        return payload(ex, s, v, 0, 0, dty) if i == 0 else args[1]
+    fork_on(cases, f)
+    return f(st, cases[0][1])
+
+
+@pattern(r'^(std::)?(result::)?Result::<.*>::err$')
+def m_result_err(ex, st, args, dty, canon):
+    v = args[0]
+    d = ex.discr_of(st, v).t
+    return sym_enum(z3.If(d == 1, I(1), I(0)), {1: [payload(ex, st, v, 1, 0, inner_ty(dty))], 0: []}, 'Option')
+
+
+@pattern(r'^(core::)?bool::<impl bool>::then_some(::<.*>)?$|^bool::then_some(::<.*>)?$')
+def m_bool_then_some(ex, st, args, dty, canon):
+    return _bool_to_opt(ex, st, args[0], args[1])
+
+
 # identity conversions ------------------------------------------------------
 
 @pattern(r'^<impl (::)?(core::convert::|std::convert::)?Into<(.*)> as Into<(.*)>>::into$')
